@@ -932,3 +932,110 @@ func ruleWakeChannelBuffered(c *Check, p *Prog, rule string, loops ...string) {
 		c.Unk(rule, "wake-up channels", "", "", "anchor lost: no signal channel of the manager in the loops' selects")
 	}
 }
+
+// ruleSightingWakesIncluder (C07-R12): on a full node the DA includer is woken only when the DA
+// scan sees a block part. Whether the part is new to the node does not matter: the marks may
+// have been restored from the cache files, or set before the block was applied — the includer
+// looked then, found the block missing and went back to sleep. So every admitted sighting wakes
+// it: from the accepting edge of the admission predicate every path to the handler's return
+// passes the non-blocking signal on the includer's channel. A wake-up sent only for parts not yet
+// marked leaves the DA-included height behind after a restart although everything is on the DA layer.
+func ruleSightingWakesIncluder(c *Check, p *Prog, rule string) {
+	c.Doc(rule, "EO: in each DA blob handler, every path from the accepting edge of the admission predicate (a bool function of the block package applied to the decoded item) to a return passes the wake-up of the DA includer (the non-blocking send on the channel DAIncluderLoop waits on): a sighting of an admitted part always leads to another inclusion check, whether or not the part was marked before.")
+	// the includer's channel field
+	incl := p.MustFunc(mgrM("DAIncluderLoop"))
+	chName := ""
+	for _, b := range incl.Blocks {
+		for _, in := range b.Instrs {
+			if sel, ok := in.(*ssa.Select); ok {
+				for _, st := range sel.States {
+					if ct, isC := st.Chan.Type().Underlying().(*types.Chan); isC && ct.Elem().String() == "struct{}" && st.Dir == types.RecvOnly {
+						if t := TermOf(st.Chan, &Ctx{Fn: incl}); t.Op == "field" {
+							chName = t.Name
+						}
+					}
+				}
+			}
+		}
+	}
+	if chName == "" {
+		c.Unk(rule, "includer channel", fnName(incl), "", "anchor lost: the signal channel DAIncluderLoop waits on")
+		return
+	}
+	root := p.MustFunc(mgrM("RetrieveLoop"))
+	rg := BuildECFG(p, root, ExpandOpts{MaxDepth: 5})
+	handlers := map[*ssa.Function]bool{}
+	for _, sn := range rg.Select(func(x *Node) bool { si := classifySink(x); return si != nil && si.what == "send" }) {
+		handlers[sn.Ctx.Fn] = true
+	}
+	var hs []*ssa.Function
+	for h := range handlers {
+		hs = append(hs, h)
+	}
+	sort.Slice(hs, func(i, j int) bool { return fnName(hs[i]) < fnName(hs[j]) })
+	n := 0
+	for _, h := range hs {
+		g := BuildECFG(p, h, ownPkgOpts(rootPath+"/block", 3))
+		c.NoteGraph(g)
+		isSignal := func(x *Node) bool {
+			switch in := x.In.(type) {
+			case *ssa.Select:
+				for _, st := range in.States {
+					if st.Dir == types.SendOnly {
+						if t := TermOf(st.Chan, x.Ctx); (t.Op == "field" && t.Name == chName) || strings.HasSuffix(t.String(), "."+chName) {
+							return true
+						}
+					}
+				}
+			case *ssa.Send:
+				if t := TermOf(in.Chan, x.Ctx); (t.Op == "field" && t.Name == chName) || strings.HasSuffix(t.String(), "."+chName) {
+					return true
+				}
+			}
+			return false
+		}
+		signals := g.Select(isSignal)
+		admitted := g.Select(EdgeWhere(func(t *Term, pol bool, nd *Node) bool {
+			t, pol = normFact(t, pol)
+			if !pol || t.Op != "call" {
+				return false
+			}
+			cv, ok := t.V.(*ssa.Call)
+			if !ok || cv.Common().StaticCallee() == nil {
+				return false
+			}
+			cal := cv.Common().StaticCallee()
+			if pk := fnPkg(cal); pk == nil || pk.Pkg.Path() != rootPath+"/block" {
+				return false
+			}
+			if res := cal.Signature.Results(); res.Len() != 1 || !isBoolType(res.At(0).Type()) {
+				return false
+			}
+			for _, a := range cv.Common().Args {
+				ts := a.Type().String()
+				if strings.HasSuffix(ts, "types.SignedHeader") || strings.HasSuffix(ts, "types.SignedData") {
+					return true
+				}
+			}
+			return false
+		}))
+		inst := fnShort(h) + " ⟂ admitted sighting wakes the includer"
+		if len(admitted) == 0 || len(signals) == 0 {
+			c.Unk(rule, inst, fnName(h), "", fmt.Sprintf("anchor lost: %d accepting edges of an admission predicate, %d wake-ups of the includer in the handler", len(admitted), len(signals)))
+			continue
+		}
+		n++
+		var exits []*Node
+		for _, x := range g.Exits {
+			if x.Ctx.Depth == 0 {
+				exits = append(exits, x)
+			}
+		}
+		c.Decide(rule, inst, fnName(h), p.InstrPos(signals[0].In), "every return after the admission passes the wake-up of the DA includer",
+			"an admitted block part found on the DA layer can be handled without waking the DA includer (e.g. when it is already marked): marks restored from the cache files, or set before the block was applied, are then never looked at again — the DA-included height stays behind although both parts of every block are on the DA layer", g,
+			g.PathAvoiding(admitted, nodeSet(exits), nodeSet(signals)))
+	}
+	if n == 0 {
+		c.Unk(rule, "DA handlers", "", "", "anchor lost: no DA blob handler with an admission predicate and a wake-up")
+	}
+}
